@@ -9,6 +9,12 @@ CLAIMED = {
     design_ref="DESIGN.md §5.4",
     note="Trusted: Coq kernel + VM; Model/M_Crop.v transcription; astropy's SlicedLowLevelWCS fill-in of dropped world values, world-to-pixel inversion and floor(x+1/2) are dependency models validated by the same run. The association of high-level objects to axes (array_indices_for_world_objects) is covered by the oracle only (crop == crop_by_values == expected box).",
     technique="Coq proof over hand-written Gallina model + vm_compute correspondence check + direct oracle"),
+ "C18": dict(
+    category="proof",
+    text="Coq theorems for ANY number of cubes and axes: C18_contains (on every cube axis the common range starts at the smallest start and ends at the largest stop of the cubes' own boxes, so it contains every cube's own region), C18_sequence_axis (the sequence axis is kept whole). Tied to /repo by an exact correspondence check of NDCubeSequence._get_sequence_crop_item on sequences of 1-4 cubes over integer probe WCS shifted against one another by whole pixels (per-cube box = the C04 crop model evaluated on each cube's WCS), None components, one-pixel extents, objects and values forms, wcses given as name or list, plus a direct oracle (union of nearest-pixel boxes, equal shapes, each cube sliced by the common box).",
+    design_ref="DESIGN.md §5.18",
+    note="Trusted: Coq kernel + VM; Model/M_SeqCrop.v + M_Crop.v transcription; per-cube box correctness is C04's subject.",
+    technique="Coq proof over hand-written Gallina model + vm_compute correspondence check"),
  "C06": dict(
     category="proof",
     text="Coq theorems over ANY two member WCS: C06_outputs (the combined wcs gives the primary's world values followed by the extra coordinates', each what the separate description gives for the same array element), C06_roundtrip (world -> pixel returns the position, on and between grid points, when both members round-trip and every extra-coord pixel dimension maps to a cube axis), C06_matrix (a matrix entry is set iff a member slot mapped to that pixel axis is set), C06_types (array_axis_physical_types lists per array axis, in array order, exactly the types whose matrix entry is set, in world order). Tied to /repo by the exact wrapper-expression evaluator of C14 on cubes over an invertible integer probe WCS with 0-4 linear lookup tables, plain / sliced / rebinned, at grid and k/4 positions, plus a direct oracle (separate descriptions, round trip, finite-difference matrix, physical types).",
